@@ -355,6 +355,26 @@ def two_docs_scenario(binary, nfuns=1500):
         s.close()
 
 
+def open_two_scenario(binary, nfuns=4000):
+    """didOpen of document A (large, with one syntax error) and didOpen of document B in ONE write: B's didOpen is handled while A's diagnostics
+    are being computed.  Once quiet, diagnostics for A's text must have been published.  returns dict(last_a=count or None, alive)"""
+    s = Session(binary, timeout=30.0)
+    try:
+        ua, ub = s.uri('a.gleam'), s.uri('b.gleam')
+        big = ''.join('pub fn f%d() {\n  %d\n}\n' % (i, i) for i in range(nfuns)) + 'bla = bla\n'
+        buf = b''
+        for m, p_ in (('textDocument/didOpen', {'textDocument': {'uri': ua, 'languageId': 'gleam', 'version': 1, 'text': big}}),
+                      ('textDocument/didOpen', {'textDocument': {'uri': ub, 'languageId': 'gleam', 'version': 1, 'text': 'pub fn b() {\n  1\n}\n'}})):
+            body = json.dumps({'jsonrpc': '2.0', 'method': m, 'params': p_}).encode()
+            buf += b'Content-Length: %d\r\n\r\n' % len(body) + body
+        s.p.stdin.write(buf); s.p.stdin.flush()
+        drain(s, quiet=4.0, limit=30.0)
+        ds = [n['params']['diagnostics'] for n in s.notifications if n.get('method') == 'textDocument/publishDiagnostics' and n['params'].get('uri') == ua]
+        return {'last_a': len(ds[-1]) if ds else None, 'alive': s.alive()}
+    finally:
+        s.close()
+
+
 def watched_files_scenario(binary, nfuns=4000):
     """document A (large, with one syntax error) is opened and, in the same write, the client reports a change of another (not opened)
     file on disk.  Once quiet, diagnostics for A's text (at least the syntax error) must have been published.
